@@ -53,6 +53,10 @@ var realCommon = []string{"all of google/pprof's packages profile and internal/{
 var stubCommon = []string{"kernel filesystem (simos in-memory disk with fault and crash model)", "goroutine scheduler (simrt baton scheduler driven by the choice tape)", "sync primitives' blocking behaviour (simsync model + real primitive)", "clock (simtime)", "external programs dot/addr2line/nm/objdump/browsers (simexec scripts)", "terminal, flags, output writer (plug-in seams)", "HTTP listener (handlers called directly through the HTTPServer seam)", "remote servers (http.RoundTripper seam)"}
 
 var specs = map[string]*checkSpec{
+	"C12": {Prop: "C12", Engine: "c12", Pkg: "internal/driver", Level: "fault_enumeration", QuickS: 30, ThorS: 900,
+		Rule:     "cases are seeded profiles (1-3 mappings incl. fake, URL, unsymbolizable and already-symbolized ones, sparse function ids, addresses at mapping edges and 0, partly symbolized locations) x symbolization mode (16 mode strings incl. force and every demangle setting) x mapping sources (symbol/symbolz URLs, non-URLs, unreachable hosts, address deltas incl. overflowing ones); the real symbolizer.Symbolizer runs against a scripted ObjTool and symbolz endpoint; the fault-free execution is recorded (N plug-in calls) and then each call k is failed in turn with every applicable failure kind (Open: error, wrong/empty build id; SourceLine: error, empty, empty names, zero lines, 6 frames; POST: transport error, 500 with and without pprof body, malformed, other addresses, truncated, partial, non-hex, empty) plus seeded 2-4-fault plans; oracle = frame condition on a deep snapshot (samples, values, labels, stack identities, addresses, mapping ranges, line tables of mappings that already carried symbols, names never emptied, unique ids, CheckValid). A case is distinct by its full description and non-trivial if the fault-free run made at least one plug-in call",
+		StateDef: "distinct (mode, number of plug-in calls) pairs",
+		Assume:   []string{"'already carries symbols' is read as the HasFunctions flag (the weakest reading both code paths honour)", "single faults are enumerated exhaustively per generated profile; multi-fault plans and profiles are sampled"}},
 	"C20": {Prop: "C20", Engine: "c20", Pkg: "internal/driver", Race: true, Level: "exploration", QuickS: 45, ThorS: 1200,
 		Rule:     "built with -race; the scheduler's baton hand-offs are invisible to the race detector (runtime.RaceDisable around the hand-off, //go:norace scheduler and simulated kernel), so the detector sees exactly the synchronisation pprof performs itself while the interleaving is dictated by the tape (random walk at sync, I/O and function-entry points, or PCT). Scenarios: 2-4 tasks Write/WriteUncompressed/Copy one shared profile (bytes must equal the sequential serialization); option get/set by writers and readers (no torn config, register linearizability by exact search); 2-6 tasks creating temp files with equal prefixes against a pre-populated directory (distinct names, nothing clobbered, registry cleaned exactly once); 2-4 concurrent web clients incl. /download and first use of the HTML templates (responses equal the solo responses on a fresh session); concurrent multi-source fetch with faults (C16 oracles). Any race report, deadlock or step-limit hang is a violation. A case is distinct by (scenario, operations, context-switch signature) and non-trivial if at least one context switch happened between the concurrent operations",
 		StateDef: "distinct sets of temp-file names handed out (temp-file scenario)",
